@@ -4,7 +4,7 @@
    also what is extracted and run against the real C++. *)
 From Coq Require Import ZArith List Bool.
 From MomoCommon Require Import GenPrelude.
-From C17 Require Gen_Leaves Leaves_Proofs SorterSearch SorterSort Search_Proofs Find_Proofs IsSorted_Proofs Sort_Proofs Radix_Proofs CodeGetter Checker Instance SelPrims Gen_SelSort SelSort_Proofs SelSort_Refine Gen_Radix Radix_Gen_Proofs Gen_RadixCount Radix_Count_Refine Gen_RadixCycle Radix_Cycle_Refine Gen_HsGuards HsGuards_Proofs Gen_FindHash FindHash_Refine Gen_Group Group_Refine Gen_Searches Searches_Refine Gen_GroupLambda GroupLambda_Proofs Gen_IsSorted IsSorted_Refine Gen_FindNext FindNext_Refine.
+From C17 Require Gen_Leaves Leaves_Proofs SorterSearch SorterSort Search_Proofs Find_Proofs IsSorted_Proofs Sort_Proofs Radix_Proofs CodeGetter Checker Instance SelPrims Gen_SelSort SelSort_Proofs SelSort_Refine Gen_Radix Radix_Gen_Proofs Gen_RadixCount Radix_Count_Refine Gen_RadixCycle Radix_Cycle_Refine Gen_HsGuards HsGuards_Proofs Gen_FindHash FindHash_Refine Gen_Group Group_Refine Gen_Searches Searches_Refine Gen_GroupLambda GroupLambda_Proofs Gen_IsSorted IsSorted_Refine Gen_FindNext FindNext_Refine SearchGlue Gen_FindOther FindOther_Refine.
 Import ListNotations.
 Local Open Scope Z_scope.
 
@@ -432,17 +432,25 @@ Theorem C17_gen_is_sorted_iff : forall count hash item eqf loop_fuel, 0 <= count
 Proof. exact IsSorted_Refine.gen_is_sorted_iff. Qed.
 Print Assumptions C17_gen_is_sorted_iff.
 
-(* ---- the GENERATED HashSorter::pvFindNext (forward iterators; Gen_FindNext.v; returns = exit codes; pvFindOther = parameter) ---- *)
-(* for any findOther that returns what the hand model's pvFindOther returns (at least one position further): whenever the hand
-   model's fn_loop on the forward view returns Ok (r, found), the generated loop exits at position begin + r with the exit code of
-   `found` -- same group-by-group scan, same end-of-range test, same hash-run test, same equality test *)
-Theorem C17_gen_findnext_refines_model : forall count hash item eqf qh qx idx cnt, cnt < 2 ^ 62 ->
-  forall findOther,
-  (forall rel o, 0 <= rel -> SorterSearch.pvFindOther count item eqf (fun k => SorterSearch.fwd idx (rel + k)) (cnt - rel) = Ok o ->
-     findOther (idx + rel) (cnt - rel) = idx + rel + o /\ 1 <= o) ->
+(* ---- the GENERATED HashSorter::pvFindOther (Gen_FindOther.v: `return pvExponentialSearch(begin + 1, count - 1, cmp).iterator`,
+   the searches being the GENERATED loops of Gen_Searches.v glued by SearchGlue.v) ---- *)
+(* on a forward view (v k = p + k) of 0 < n < 2^62 items: whenever the hand model's pvFindOther returns Ok o, the generated function
+   returns the iterator p + o, and o >= 1 *)
+Theorem C17_gen_findother_refines_model : forall count item eqf v p n o, (forall k, v k = p + k) -> 0 < n < 2 ^ 62 ->
+  SorterSearch.pvFindOther count item eqf v n = Ok o ->
+  Gen_FindOther.pvFindOther eqf SorterSearch.log_fuel item p n = Ok (p + o) /\ 1 <= o.
+Proof. exact FindOther_Refine.gen_findother_refines. Qed.
+Print Assumptions C17_gen_findother_refines_model.
+
+(* ---- the GENERATED HashSorter::pvFindNext (forward iterators; Gen_FindNext.v; returns = exit codes), with its pvFindOther
+   parameter instantiated by the GENERATED pvFindOther (FindOther_Refine.gen_other = its Ok value) -- no premise left ---- *)
+(* whenever the hand model's fn_loop on the forward view returns Ok (r, found), the generated loop exits at position begin + r with
+   the exit code of `found` -- same group-by-group scan, same end-of-range test, same hash-run test, same equality test *)
+Theorem C17_gen_findnext_refines_model : forall count hash item eqf qh qx idx cnt, 0 <= idx -> cnt < 2 ^ 62 ->
   forall f rel r b, 0 <= rel ->
     SorterSearch.fn_loop count hash item eqf qh qx f (SorterSearch.fwd idx) cnt rel = Ok (r, b) ->
-    exists code, Gen_FindNext.pvFindNext_loop0 eqf findOther f idx cnt hash qx qh item (idx + rel) = Ok (code, idx + r) /\
+    exists code,
+      Gen_FindNext.pvFindNext_loop0 eqf (FindOther_Refine.gen_other eqf item) f idx cnt hash qx qh item (idx + rel) = Ok (code, idx + r) /\
       b = (match code with Some _ => true | None => false end) /\ rel < r.
-Proof. exact FindNext_Refine.gen_findnext_simulates. Qed.
+Proof. exact FindOther_Refine.gen_findnext_closed. Qed.
 Print Assumptions C17_gen_findnext_refines_model.
